@@ -62,7 +62,7 @@ pub fn configs(tier: Tier) -> Vec<String> {
                     }
                     v.push(format!("lock={},shared={},fair={},init={}", lock, shared, fair, init));
                     if init == 0 && lock == "local" {
-                        v.push(format!("lock={},shared={},fair={},init={},big=1", lock, shared, fair, init));
+                        v.push(format!("lock={},shared={},fair={},init={},big=1,nobfs=1", lock, shared, fair, init));
                     }
                 }
             }
